@@ -91,9 +91,13 @@ def bf_cases(tier):
     cases = []
     FW = fw_pairs()
     ULONG = 8
+    seen = set()
 
     def add(t, w, pre, post, emb):
         cid = "bf/%s/%s:%d/pre=%s/post=%s" % (emb, TN[t], w, spec_name(pre), spec_name(post))
+        if cid in seen:
+            return
+        seen.add(cid)
         fam = "bitfield"
         if pre[0] == "unnamed":
             fam = "bitfield-after-unnamed"
@@ -567,14 +571,15 @@ def va_unit_one(i, c):
         d = int(cx[5:])
         e = blk("5"); want = 5
         for lev in range(d + 1):
-            e = "c04_add3(x + %d, %s, %d)" % (lev, e, lev + 1); want = (x + lev) * 100 + want * 10 + lev + 1
+            # the operands on both sides are negative so that every byte of a pending temporary matters
+            e = "c04_add3(%d - x, %s, %d)" % (lev, e, -(lev + 1)); want = (lev - x) * 100 + want * 10 - (lev + 1)
         body = "r = %s;" % e
     elif cx == "binop-lhs":
-        body = "r = %s + (x * 3);" % blk("5"); want = 5 + 3 * x
+        body = "r = %s + (x * -3);" % blk("5"); want = 5 - 3 * x
     elif cx == "binop-rhs":
-        body = "r = (x * 3) + %s;" % blk("5"); want = 5 + 3 * x
+        body = "r = (x * -3) + %s;" % blk("5"); want = 5 - 3 * x
     elif cx == "binop-deep":
-        body = "r = x + (x * 2 + (x * 3 + (c04_id(x) * 4 + %s)));" % blk("5"); want = 10 * x + 5
+        body = "r = (%s + c04_id(x) * -4 + x * -3) + x * -2 - x;" % blk("5"); want = 5 - 10 * x
     elif cx == "nested-calls":
         helpers = ("static long rec%d(long d, long x) { char *q = alloca(d * 8 + 1); long w[d + 1]; long t = c04_mark(); c04_tag(q, d * 8 + 1, 0); c04_tag(w, sizeof w, 0);\n"
                    "  long r = d ? rec%d(d - 1, x) + 1 : c04_id(x); c04_drop(t); return r; }\n" % (i, i))
